@@ -8,20 +8,20 @@ from . import geo
 DIRS = 'uvw'
 
 
-def spec(kind, degs, mults, dim=None, rational=False, lo=0, hi=1, doms=None, scaled=False, shifted=False, kscaled=False):
+def spec(kind, degs, mults, dim=None, rational=False, lo=0, hi=1, doms=None, scaled=False, shifted=False, kscaled=False, tuple_kv=False):
     """doms: optional per-direction (lo, hi) knot domains (default: the same [lo, hi] everywhere).
     scaled: the control net is a fixed integer pattern times ONE symbolic factor `sc` > 0 (all sizes of the
     geometry, from micro to huge, with a single variable: absolute tolerances in the code show up as forks on sc)"""
     degs = tuple(degs)
     doms = list(doms) if doms else [(lo, hi)] * len(degs)
     kvs = [fam.pattern(p, m, d[0], d[1]) for p, m, d in zip(degs, mults, doms)]
-    return dict(kind=kind, degs=degs, kvs=kvs, dim=dim or (2 if kind == 'curve' else 3), rational=rational, mults=tuple(mults), doms=doms, scaled=scaled, shifted=shifted, kscaled=kscaled)
+    return dict(kind=kind, degs=degs, kvs=kvs, dim=dim or (2 if kind == 'curve' else 3), rational=rational, mults=tuple(mults), doms=doms, scaled=scaled, shifted=shifted, kscaled=kscaled, tuple_kv=tuple_kv)
 
 
 def spec_name(sp):
     ends = [(k[0], k[-1]) for k in sp['kvs']]
     dom = '' if all(e == (0, 1) for e in ends) else (' dom[%s,%s]' % ends[0] if len(set(ends)) == 1 else ' dom' + 'x'.join('[%s,%s]' % e for e in ends))
-    return '%s p%s m%s %s%s%s' % (sp['kind'], ','.join(map(str, sp['degs'])), ','.join(str(m) for m in sp['mults']), 'rat' if sp['rational'] else 'nonrat', dom, (' scaled' if sp.get('scaled') else '') + (' shifted' if sp.get('shifted') else '') + (' kscaled' if sp.get('kscaled') else ''))
+    return '%s p%s m%s %s%s%s' % (sp['kind'], ','.join(map(str, sp['degs'])), ','.join(str(m) for m in sp['mults']), 'rat' if sp['rational'] else 'nonrat', dom, (' scaled' if sp.get('scaled') else '') + (' shifted' if sp.get('shifted') else '') + (' kscaled' if sp.get('kscaled') else '') + (' tuple-kv' if sp.get('tuple_kv') else ''))
 
 
 def sibling_spec(sp):
@@ -76,6 +76,11 @@ def build(cx, sp, prefix='', **kw):
         Ks = [[k * ks[d] for k in K] for d, K in enumerate(Ks)]
         kw = dict(kw)
         kw.setdefault('normalize_kv', False)
+    if sp.get('tuple_kv'):
+        # knot vectors handed over as tuples and kept as they are (normalize_kv=False)
+        Ks = [tuple(K) for K in Ks]
+        kw = dict(kw)
+        kw['normalize_kv'] = False
     n = 1
     for s in sizes:
         n *= s
